@@ -19,7 +19,7 @@ TOPO = {
 
 
 def consts(topo, kinds=("lock", "try", "ctx"), calls=1, faults=1, cancels=1, shutdown=True, late=False,
-           fkinds=("reqlost", "replylost")):
+           fkinds=("reqlost", "replylost", "midcancel")):
     c = dict(TOPO[topo])
     c.update(Kinds="{" + ", ".join('"%s"' % k for k in kinds) + "}", MaxCalls=calls, MaxFaults=faults,
              FaultKinds="{" + ", ".join('"%s"' % k for k in fkinds) + "}", MaxCancels=cancels,
